@@ -40,8 +40,9 @@ GetB(ver, o, a) ==
 (* changes nothing.                                                          *)
 FrameOK(ver, o, a, v) ==
   LET r == SetB(ver, o, a, v)
-  IN  /\ r.ok => /\ MetricOf(ver, a) # NoMetric
-                 /\ r.obj[MetricOf(ver, a)] = ValueOf(ver, MetricOf(ver, a), v)
-                 /\ \A m2 \in MetricSet(ver) : m2 # MetricOf(ver, a) => r.obj[m2] = o[m2]
+      m == MetricOf(ver, a)
+  IN  /\ r.ok => /\ m # NoMetric
+                 /\ r.obj[m] = ValueOf(ver, m, v)
+                 /\ \A m2 \in MetricSet(ver) : m2 # m => r.obj[m2] = o[m2]
       /\ ~r.ok => r.obj = o
 =============================================================================
